@@ -117,6 +117,22 @@ impl OneHopPath {
         .with_calculated_mac(beta, self.info.timestamp, &forwarding_key);
     }
 
+    /// Returns true if the hop field that the second AS fills in is still the placeholder (its
+    /// construction ingress interface is 0).
+    ///
+    /// That hop field is the second one in construction direction: it sits in the second position
+    /// while the path travels in construction direction and in the first position once the path
+    /// has been reversed, so a reversed path can be reversed again.
+    #[inline]
+    fn second_hop_unset(&self) -> bool {
+        let idx = if self.info.flags.contains(InfoFieldFlags::CONS_DIR) {
+            1
+        } else {
+            0
+        };
+        self.hops[idx].cons_ingress == 0
+    }
+
     /// Reverses the one-hop path to create a standard path with two hops in the opposite direction.
     ///
     /// If the second hop field is not set, this will return an error containing the original
@@ -129,7 +145,7 @@ impl OneHopPath {
     /// the Segment ID is correctly set to reflect the final hop of the path before calling this
     /// method.
     pub fn try_into_reversed_standard_path(self) -> Result<StandardPath, (PathReverseError, Self)> {
-        if self.hops[1].cons_ingress == 0 {
+        if self.second_hop_unset() {
             // The second hop is not set, we cannot reverse the path
             return Err((
                 PathReverseError::new(
@@ -166,7 +182,7 @@ impl OneHopPath {
     /// interface is still 0, meaning the path is incomplete).
     #[inline]
     pub fn try_reverse(&mut self) -> Result<(), PathReverseError> {
-        if self.hops[1].cons_ingress == 0 {
+        if self.second_hop_unset() {
             return Err(PathReverseError::new(
                 "Cannot reverse a one-hop path whose second hop has not been set yet",
             ));
